@@ -190,7 +190,8 @@ fn check(prop: &Property, tier: Tier) -> i32 {
             .arg(&out)
             .stdin(Stdio::null())
             .stdout(Stdio::null())
-            .stderr(Stdio::inherit())
+            // the code under test writes diagnostics to stderr (e.g. every rejected position command)
+            .stderr(if std::env::var("VERIF_PANIC_TRACE").is_ok() { Stdio::inherit() } else { Stdio::null() })
             .spawn()
             .expect("spawn shard");
         children.push((i, child, out));
